@@ -2,6 +2,8 @@
 from . import apirules, sanrules, hashrules, attackrules, validaterules
 from .common import sim_rules
 
+from .aisetup import total_roots_rule
+
 
 def run(ctx):
     facts = ctx.facts("dev")
@@ -16,11 +18,19 @@ def run(ctx):
         "M7 the pin shortcut is never taken by an en passant capture (C01/N2); validation gate structure is C11/V1",
         "M9 the position left by do_make_move is, per abstract case, the one the rules prescribe, with castling rights re-examined for "
         "every changed home square - so re-validation has nothing to normalise (shared with C03/A0-A2)",
-        "M5 (panic freedom of the safe API) is decided by the abstract interpreter under C12/P1 for the parsers; for make paths see DESIGN.md",
+        "M5 the safe make API (Move, uci::Move, san::Move, Uci<S>, San<S>, TryUnchecked, Board::make_move; make and make_raw) reaches no "
+        "assertion, panic or unsafe precondition on a valid Board (abstract interpreter, rules/absint.py, under A-KING)",
     ]
     ctx.not_decided += ["that the resulting position *is* valid: it follows if make-move (C03) and the legality filter (C01) are behaviourally "
                         "right; 're-validating reproduces it identically' is supported by C05/C11, not proved here"]
     apirules.make_impl_rules(ctx, facts, "M1", "M4")
+    total_roots_rule(ctx, facts, "M5", [
+        ("make_move", "Move::make"), ("make_move_raw", "Move::make_raw"), ("make_uci_move", "uci::Move::make"),
+        ("make_uci_move_raw", "uci::Move::make_raw"), ("make_san_move", "san::Move::make"), ("make_san_move_raw", "san::Move::make_raw"),
+        ("make_uci_str", "Uci(&str)::make"), ("make_uci_str_raw", "Uci(&str)::make_raw"), ("make_san_str", "San(&str)::make"),
+        ("make_san_str_raw", "San(&str)::make_raw"), ("make_try_unchecked", "TryUnchecked::make"),
+        ("make_try_unchecked_raw", "TryUnchecked::make_raw"), ("board_make_move", "Board::make_move"),
+    ], "the safe make API never panics: no assertion, panic or unsafe precondition reachable on a valid Board")
     sanrules.producer_rule(ctx, facts, "M2")
     hashrules.writers_rule(ctx, facts, "M6")
     attackrules.prechecker_rule(ctx, facts, "M7")
